@@ -222,6 +222,135 @@ def _cursor_pointers(body):
     return rw(body)
 
 
+def _running_offsets(body):
+    """`long acc = 0; for(v=0; v<N; v++) { index[v] = acc; ... acc ... ; acc += cnt[v]; }` - the running-offset spelling of
+    the prefix sums - is rewritten to the reference spelling `if(N) index[0] = 0; for(..) { if(v) index[v] = index[v-1] +
+    cnt[v-1]; ... index[v] ... }`, so that the row idioms are recognised in one form.  Only when `acc` has no other use, the
+    loop body cannot skip the increment (no continue / break / goto / return) and `index` has no other writer."""
+    if not isinstance(body, dict):
+        return body
+    LONG = {'qualType': 'long'}
+
+    def name_of(n):
+        n = strip(n)
+        return (n.get('referencedDecl') or {}).get('name') if isinstance(n, dict) and n.get('kind') == 'DeclRefExpr' else None
+
+    def lit(v):
+        return dict(kind='IntegerLiteral', value=str(v), type=LONG)
+
+    def sub(a, i):
+        return dict(kind='ArraySubscriptExpr', inner=[_deep(strip(a)), i], type=LONG)
+
+    def try_block(blk):
+        kids = blk.get('inner', []) or []
+        for li, F in enumerate(kids):
+            if not (isinstance(F, dict) and F.get('kind') == 'ForStmt' and len(F.get('inner', [])) == 5):
+                continue
+            init, _, cond, inc, fb = F['inner']
+            c = strip(cond) if cond else {}
+            if not (isinstance(fb, dict) and fb.get('kind') == 'CompoundStmt' and c.get('kind') == 'BinaryOperator' and c.get('opcode') == '<'):
+                continue
+            v = name_of(c['inner'][0])
+            i0 = init or {}
+            lo = None
+            if i0.get('kind') == 'BinaryOperator' and i0.get('opcode') == '=' and name_of(i0['inner'][0]) == v:
+                lo = unparen(S(i0['inner'][1]))
+            elif i0.get('kind') == 'DeclStmt' and i0['inner'][0].get('name') == v and i0['inner'][0].get('inner'):
+                lo = unparen(S(i0['inner'][0]['inner'][0]))
+            if v is None or lo != '0' or not _is_incr_of(inc, v):
+                continue
+            fk = fb.get('inner', []) or []
+            pidx = qidx = None
+            arr = acc = cnt = None
+            for i_, st in enumerate(fk):
+                t = strip(st)
+                if pidx is None and isinstance(t, dict) and t.get('kind') == 'BinaryOperator' and t.get('opcode') == '=':
+                    l, r = strip(t['inner'][0]), strip(t['inner'][1])
+                    if l.get('kind') == 'ArraySubscriptExpr' and name_of(l['inner'][0]) and name_of(l['inner'][1]) == v and name_of(r):
+                        pidx, arr, acc, arr_node, v_node = i_, name_of(l['inner'][0]), name_of(r), l['inner'][0], l['inner'][1]
+                        continue
+                if pidx is not None and isinstance(t, dict) and t.get('kind') == 'CompoundAssignOperator' and t.get('opcode') == '+=' \
+                        and name_of(t['inner'][0]) == acc:
+                    r = strip(t['inner'][1])
+                    if r.get('kind') == 'ArraySubscriptExpr' and name_of(r['inner'][0]) and name_of(r['inner'][1]) == v:
+                        qidx, cnt_node = i_, r['inner'][0]
+                        break
+            if pidx is None or qidx is None:
+                continue
+            # acc: declared with 0 in this block before the loop, written nowhere else, read only between p and q
+            decl_i = None
+            for i_, st in enumerate(kids[:li]):
+                if isinstance(st, dict) and st.get('kind') == 'DeclStmt' and len(st.get('inner', [])) == 1 and st['inner'][0].get('name') == acc \
+                        and st['inner'][0].get('inner') and unparen(S(st['inner'][0]['inner'][0])) in ('0',):
+                    decl_i = i_
+            if decl_i is None:
+                continue
+            window = fk[pidx + 1:qidx]
+            allowed = {id(x) for st in window for x in _walk_nodes(st)} | {id(x) for x in _walk_nodes(fk[pidx])} | {id(x) for x in _walk_nodes(fk[qidx])}
+            other_use = [x for x in _walk_nodes(body) if x.get('kind') == 'DeclRefExpr' and (x.get('referencedDecl') or {}).get('name') == acc
+                         and id(x) not in allowed]
+            if other_use or any(_assigns_var(st, acc) for st in window) or any(_assigns_var(st, v) for st in fk):
+                continue
+            if any(x.get('kind') in ('ContinueStmt', 'BreakStmt', 'GotoStmt', 'ReturnStmt') for st in fk for x in _walk_nodes(st)):
+                continue
+            writers = [x for x in _walk_nodes(body) if x.get('kind') in ('BinaryOperator', 'CompoundAssignOperator') and
+                       x.get('opcode', '').endswith('=') and x.get('opcode') not in ('==', '!=', '<=', '>=') and
+                       strip(x['inner'][0]).get('kind') == 'ArraySubscriptExpr' and name_of(strip(x['inner'][0])['inner'][0]) == arr]
+            if len(writers) != 1:
+                continue
+
+            def vm1():
+                return dict(kind='BinaryOperator', opcode='-', inner=[_deep(strip(v_node)), lit(1)], type=LONG)
+
+            def repl(n):
+                if not isinstance(n, dict):
+                    return n
+                if n.get('kind') == 'DeclRefExpr' and (n.get('referencedDecl') or {}).get('name') == acc:
+                    return sub(arr_node, _deep(strip(v_node)))
+                if n.get('inner'):
+                    m = dict(n)
+                    m['inner'] = [repl(x) for x in n['inner']]
+                    return m
+                return n
+            pre = dict(kind='IfStmt', inner=[_deep(strip(c['inner'][1])),
+                                             dict(kind='CompoundStmt', inner=[dict(kind='BinaryOperator', opcode='=', type=LONG,
+                                                                                   inner=[sub(arr_node, lit(0)), lit(0)])])])
+            step = dict(kind='IfStmt', inner=[_deep(strip(v_node)),
+                                              dict(kind='CompoundStmt', inner=[dict(
+                                                  kind='BinaryOperator', opcode='=', type=LONG,
+                                                  inner=[sub(arr_node, _deep(strip(v_node))),
+                                                         dict(kind='BinaryOperator', opcode='+', type=LONG,
+                                                              inner=[sub(arr_node, vm1()), sub(cnt_node, vm1())])])])])
+            for key in ('range', 'loc'):
+                if key in fk[pidx]:
+                    step[key] = fk[pidx][key]
+                if key in kids[decl_i]:
+                    pre[key] = kids[decl_i][key]
+            nfb = dict(fb)
+            nfb['inner'] = fk[:pidx] + [step] + [repl(st) for st in window] + fk[qidx + 1:]
+            nF = dict(F)
+            nF['inner'] = [init, _, cond, inc, nfb]
+            nb = dict(blk)
+            nb['inner'] = kids[:decl_i] + kids[decl_i + 1:li] + [pre, nF] + kids[li + 1:]
+            return nb
+        return None
+
+    def rec(n):
+        if not isinstance(n, dict):
+            return n
+        if n.get('kind') == 'CompoundStmt':
+            for _ in range(4):
+                m = try_block(n)
+                if m is None:
+                    break
+                n = m
+        if n.get('inner'):
+            n = dict(n)
+            n['inner'] = [rec(x) for x in n['inner']]
+        return n
+    return rec(body)
+
+
 def _while_to_for(n):
     """`v = lo; while(v < hi) { body; v += 1; }`  ->  `for(v = lo; v < hi; v += 1) { body }` when the body neither assigns v
     elsewhere nor contains `continue` (which would skip the increment of the while form)."""
@@ -750,6 +879,7 @@ class CFunc:
         self._cur = self.line
         self.named = {}       # local -> init node, for locals declared with an initialiser and never re-assigned
         self.body = _while_to_for(self.body)
+        self.body = _running_offsets(self.body)
         self.body = _cursor_pointers(self.body)
         self._collect_named(self.body)
         self.body = self._canon_pointers(self.body)
